@@ -103,6 +103,7 @@ type Style struct {
 	TravComma    bool // trailing ',' after the lambda inside traverse( ... ,)
 	Import       bool // leading import line
 	Paren        int  // expression layout, see renderExpr
+	DeclOrder    int  // bit 1: the permits block precedes the related block; bit 2: permissions in reverse order (forward references)
 }
 
 const (
@@ -314,6 +315,14 @@ func (p *Prog) Tokens(st Style) []Tok {
 		b.owner = ns.Name
 		b.t("class", ns.Name, "implements", "Namespace", "{")
 		b.nl()
+		perms := ns.Perms
+		if st.DeclOrder&2 != 0 {
+			perms = make([]PermDecl, len(ns.Perms))
+			for i, pm := range ns.Perms {
+				perms[len(ns.Perms)-1-i] = pm
+			}
+		}
+		emitRelated := func() {
 		if len(ns.Rels) > 0 {
 			b.t("related", ":", "{")
 			b.nl()
@@ -334,10 +343,12 @@ func (p *Prog) Tokens(st Style) []Tok {
 			}
 			b.nl()
 		}
+		}
+		emitPermits := func() {
 		if len(ns.Perms) > 0 {
 			b.t("permits", "=", "{")
 			b.nl()
-			for i, pm := range ns.Perms {
+			for i, pm := range perms {
 				b.t(quote(pm.Name, st.QuoteNames), ":", "(", "ctx")
 				if st.CtxType {
 					b.t(":", "Context")
@@ -354,7 +365,7 @@ func (p *Prog) Tokens(st Style) []Tok {
 				for k := mark; k < len(b.toks); k++ {
 					b.toks[k].Body = cur
 				}
-				if i < len(ns.Perms)-1 || st.TrailComma {
+				if i < len(perms)-1 || st.TrailComma {
 					b.t(",")
 				}
 				b.nl()
@@ -364,6 +375,14 @@ func (p *Prog) Tokens(st Style) []Tok {
 				b.t(";")
 			}
 			b.nl()
+		}
+		}
+		if st.DeclOrder&1 != 0 {
+			emitPermits()
+			emitRelated()
+		} else {
+			emitRelated()
+			emitPermits()
 		}
 		b.t("}")
 		b.nl()
@@ -595,6 +614,18 @@ func flat(x *ast.SubjectSetRewrite) (string, []string) {
 		kids = append(kids, normChild(ch))
 	}
 	return op, kids
+}
+
+// normNamespacesUnordered: like normNamespaces with the relations of every namespace sorted by name
+// (declaration order inside a class is not part of what a document denotes).
+func normNamespacesUnordered(nss []namespace.Namespace) string {
+	cp := make([]namespace.Namespace, len(nss))
+	for i, n := range nss {
+		cp[i] = n
+		cp[i].Relations = append([]ast.Relation(nil), n.Relations...)
+		sort.Slice(cp[i].Relations, func(a, b int) bool { return cp[i].Relations[a].Name < cp[i].Relations[b].Name })
+	}
+	return normNamespaces(cp)
 }
 
 func normNamespaces(nss []namespace.Namespace) string {
